@@ -782,6 +782,10 @@ def verify_directory_hash_subcommand(
                     content_hash = None
                     structure_hash = None
 
+                    # directory hashes in formats that are not calculated in this run can't be compared
+                    if directory_hash_entry.hash_format not in hash_format_list:
+                        continue
+
                     if content_hash_lookup:
                         content_hash = content_hash_lookup[directory_hash_entry.hash_format]
                     if structure_hash_lookup:
@@ -860,6 +864,10 @@ def verify_directory_hash_subcommand(
                         found_hash_format = False
                         dir_content_hash = None
                         dir_structure_hash = None
+
+                        # root hashes in formats that are not calculated in this run can't be compared
+                        if hash_format not in hash_format_list:
+                            continue
 
                         if dir_content_hash_lookup:
                             dir_content_hash = dir_content_hash_lookup[hash_format]
